@@ -112,6 +112,21 @@ def body_perturbed(case, rec):
     run(case, rec, False)
 
 
+def body_tagged(case, rec):
+    """tagged PretextView maps (haplotypes, Target mode, piece tags): both sentences, over every output assembly"""
+    classes = {"target_mode"} if any("Target" in r[5] for _n, rows in case["map"] for r in rows if r[0] == "F") else set()
+    try:
+        res = remap.run_api(case)
+    except Exception as e:  # noqa: BLE001 -- tagging / naming errors are C09's and C10's subject
+        rec.note(case, False, {"error", "error_" + type(e).__name__})
+        return
+    outs = [[f"{k}:{s.name}", conv.plain_rows(s.rows, with_tags=False)] for k, s in res.all_scaffolds()]
+    try:
+        oracle(case, outs, True, classes)
+    finally:
+        rec.note(case, bool(classes & {"junction_between_non_neighbours", "input_gap_retained"}) and "target_mode" in classes, classes)
+
+
 @st.composite
 def model_cases(draw):
     t = draw(gen.texel())
@@ -226,6 +241,8 @@ SUBS = [
     Sub("perturbed", kind="hyp", strategy=perturbed_cases, body=body_perturbed,
         budget={"quick": 8000, "thorough": 100000},
         desc="perturbed maps that complete, first sentence only"),
+    Sub("tagged", kind="hyp", strategy=lambda: gen.tagged_case(max_scaffolds=5, max_contigs=6, piece_tag_weight=5), body=body_tagged,
+        budget={"quick": 8000, "thorough": 150000}, desc="tagged maps incl. Target mode and two haplotypes: gap rows of every output assembly (curated, haplotigs, contaminants, false duplicates)"),
     Sub("cli", kind="hyp", strategy=cli_cases, body=body_cli,
         budget={"quick": 320, "thorough": 4000}, desc="gap oracle on the AGP files written by the CLI (model maps and Primary-mode maps with merged all_haplotigs file)"),
     Sub("partial", kind="hyp", strategy=partial_cases, body=body_perturbed,
